@@ -35,6 +35,7 @@ type specDef struct {
 	Body   cExpr // nil = uninterpreted
 	Src    string
 	Fuel   int
+	Macro  bool // always expanded in place (must not be recursive through macros)
 	File   string
 	Line   int
 }
@@ -74,7 +75,7 @@ type contractDB struct {
 	Files     []string
 }
 
-var clauseKw = regexp.MustCompile(`^(spec|lemma|contract|external|requires|ensures|decreases|loop|safety|props|inline|pure|modifies|noreturn|fuel|unreachable)\b`)
+var clauseKw = regexp.MustCompile(`^(spec|macro|lemma|contract|external|requires|ensures|decreases|loop|safety|props|inline|pure|modifies|noreturn|fuel|unreachable)\b`)
 
 func newContractDB() *contractDB {
 	return &contractDB{Specs: map[string]*specDef{}, Contracts: map[string]*contract{}}
@@ -133,10 +134,14 @@ func (db *contractDB) loadContractFile(path, pkgPath string) error {
 			return fmt.Errorf("%s:%d: %s", path, rc.line, fmt.Sprintf(f, a...))
 		}
 		switch kw {
-		case "spec":
+		case "spec", "macro":
 			sd, err := parseSpecDecl(rest)
 			if err != nil {
 				return fail("%v", err)
+			}
+			sd.Macro = kw == "macro"
+			if sd.Macro && sd.Body == nil {
+				return fail("macro %s needs a body", sd.Name)
 			}
 			sd.Pkg, sd.File, sd.Line = pkgPath, path, rc.line
 			if _, dup := db.Specs[sd.Name]; dup {
